@@ -72,8 +72,15 @@ def run(rep, tier, rng, replay=None):
                        "half of the time) through the hook VerifLevenshtein vs model lev_go (evaluated in Coq) vs a Python reference; "
                        "message stream: random command sets (visible/hidden/aliases) x words through ParseArgs vs the model; "
                        "non-trivial = both strings non-empty and different / scenario reaches estimateCommand; distinct by content hash")
+    if replay:
+        from . import parsecheck
+        common.replay(rep, "C20", replay, keys=["panic", "err"]); return
     if not lib.std_proof_phase(rep, "C20"):
         return
     if not distance_stream(rep, rng, 600 if tier == "quick" else 20000, exhaustive=(tier == "thorough")):
         return
-    common.scenario_stream(rep, rng, "C20", tier)
+    from . import parsecheck
+    cfg = parsecheck.CONFIG["C20"]
+    common.scenario_check(rep, rng, "C20", 400 if tier == "quick" else 15000, profile=cfg["profile"], keys=cfg["keys"], transform=None,
+                          theorem_names="C20_message", stream="message",
+                          nontrivial=lambda sc, g: bool(g["ops"]) and g["ops"][0].get("err", "").startswith(("F:11", "F:12")))
